@@ -140,6 +140,30 @@ def record_and_validate(ctx, pid, c, ntraces, length, ops=None, spec_ops='AllOps
                       {'seed': meta[idx][0], 'flavour': meta[idx][1], 'diag': d,
                        'events': [x['ev'] for x in traces[idx]],
                        'logged_post': traces[idx][d.get('l', 1) - 1]['post'] if d else None})
+    # binding self-test: a corrupted recorded field must be rejected (a trace spec that accepts anything
+    # would make every verdict above worthless)
+    import copy
+    probe = None
+    for t in traces:
+        for k, ev in enumerate(t):
+            slots = [o for o in ev['post'] if o['pats'] and o['vec'] and o['vec'][0]]
+            if slots:
+                probe = copy.deepcopy(t[:k + 1])
+                tgt = [o for o in probe[-1]['post'] if o['pats'] and o['vec'] and o['vec'][0]][0]
+                tgt['vec'][0][0] = 999 if tgt['vec'][0][0] != 999 else 998
+                break
+        if probe:
+            break
+    if probe is not None:
+        before = ctx.traces
+        rej = ctx.validate('MC_Trace_RdmsStore',
+                           cfg(c['NR'], c['NC'], 0, 2, maxobj=c['MaxObj'], maxrows=c['MaxRows'],
+                               maxpats=c['MaxPats'], emit=False, spec=True, ops=spec_ops),
+                           [probe], name='trace_store_selftest', count=False)
+        ctx.traces = before
+        if not rej:
+            raise MachineryError('binding self-test failed: a corrupted recorded value was accepted by Trace_RdmsStore')
+        ctx.extra['binding_selftest'] = 'corrupted vec entry rejected at event %d' % (rej[0][1][0].get('l', -1) if rej[0][1] else -1)
     return len(traces)
 
 
